@@ -88,13 +88,13 @@ class FamilyRun:
     """Runs one family of programs on the implementation once and offers the
     comparisons with the model."""
 
-    def __init__(self, ctx, lines, name="fam", timeout=900, cap=3000):
+    def __init__(self, ctx, lines, name="fam", timeout=1800, cap=3000, shards=None):
         self.ctx = ctx
         self.lines = lines
         self.file = os.path.join(ctx.dir, name + ".txt")
         open(self.file, "w").write("\n".join(lines) + "\n")
         self.cap = cap
-        self.impl, self.raw = corr.run_harness(self.file, len(lines), timeout, cap=cap)
+        self.impl, self.raw = corr.run_harness(self.file, len(lines), timeout, cap=cap, shards=shards)
         self.rawfile = os.path.join(ctx.dir, name + ".harness.out")
         open(self.rawfile, "w").write(self.raw)
         self.parsed = {}
@@ -454,6 +454,7 @@ class OutcomeCheck:
     kinds = ("missing", "missed-failure", "spurious-failure", "forbidden")
     ref_mode = "ref"          # "ref" = SC atomics, "refw" = unconstrained atomics
     cap = 3000
+    shards = None             # None = corr.SHARDS processes; 1 where the order of programs within one process matters
     assumptions = [
         "theorems are about the Coq model L; L is tied to src/rt by whole-run correspondence (every decision of every iteration, every result, the outcome) on the families",
         "R (Ref.v) is the specification of what outcomes a program can produce",
@@ -477,8 +478,8 @@ class OutcomeCheck:
         det = self.det_family(ctx)
         rnd = self.rnd_family(ctx)
         cov = {"samples": [], "rule": self.rule}
-        fam_d = FamilyRun(ctx, det, "det", cap=self.cap) if det else None
-        fam_r = FamilyRun(ctx, rnd, "rnd", cap=self.cap) if rnd else None
+        fam_d = FamilyRun(ctx, det, "det", cap=self.cap, shards=self.shards) if det else None
+        fam_r = FamilyRun(ctx, rnd, "rnd", cap=self.cap, shards=self.shards) if rnd else None
         nprog = nit = 0
         mism_total = 0
         aborts = []
@@ -1151,7 +1152,7 @@ class C13:
         bounded += [gen.with_cfg(l, ee=1) for l in gen.fam_ctl_core("quick") if l.startswith("ctE")][:4]
         progs = base + rnd + bounded
         # 1. determinism: the same family twice in one process, once more in another process
-        fam = FamilyRun(ctx, progs + progs, "c13a")
+        fam = FamilyRun(ctx, progs + progs, "c13a", shards=1)   # one process: the second run of each program follows the first
         fam2 = FamilyRun(ctx, progs, "c13b")
         wm = fam.whole_run_mismatches()
         if wm:
@@ -1271,6 +1272,7 @@ class C06(OutcomeCheck):
                   "during a panic, aborts and hangs are runtime behaviour the model cannot exhibit: they are observed on the implementation (each program runs in a monitored process; an abort or a hang is a violation).")
     level_note = "partial by nature: the Coq part covers the control flow of Builder::check; process-level behaviour is decided by the crash-point runs"
     ref_mode = "refw"
+    shards = 1                # each panicking program is followed in the same process by the clean one
     det_family = lambda self, ctx: gen.fam_crash_core(ctx.tier)
     rnd_family = rnd("c06r", "AMRHN", nq=60, nt=600)
 
@@ -1298,7 +1300,7 @@ class C16:
         seq = []
         for i in range(0, len(pool) - 1, 2):
             seq += [pool[i], pool[i + 1], pool[i], pool[i + 1]]
-        fam = FamilyRun(ctx, seq, "c16seq")
+        fam = FamilyRun(ctx, seq, "c16seq", shards=1)   # one process: A,B,A,B back to back
         wm = fam.whole_run_mismatches()
         for m in wm[:3]:
             # a program whose behaviour depends on what ran before it
